@@ -15,7 +15,7 @@ FinalInfo(s) == LET f == Final(s) IN
   [done |-> {<<c, f.calls[c].res>> : c \in {x \in 1 .. Len(s.calls) : s.calls[x].st # "done"}},
    pending |-> {c \in 1 .. Len(f.calls) : f.calls[c].st # "done"},
    go |-> f.gotOut, ge |-> f.gotErr, ka |-> IF s.closed THEN "" ELSE f.ka,
-   race |-> IF s.closed THEN FALSE ELSE f.ioRace]
+   race |-> IF s.closed THEN FALSE ELSE f.ioRace, kf |-> s.early]
 
 \* generator "one test per model transition" (see SSHMux_MC): the view hides step observables, counters and ghosts
 \* Calls are replaced by what matters for the future (kind of the pending request, whether a Wait is blocked, whose buffer
@@ -30,9 +30,9 @@ AbsView == [S EXCEPT !.last = Ev("", "", 0), !.out = <<>>, !.done = {}, !.ka = "
                      !.bufOut = Len(S.bufOut), !.bufErr = Len(S.bufErr), !.gotOut = Len(S.gotOut), !.gotErr = Len(S.gotErr),
                      !.srvIn = Len(S.srvIn), !.wres = IF S.waiter = 0 THEN NoRes ELSE S.wres]
 Line(s, h) == PrintT("TRACE " \o ToJson([cfg |-> s.cfg, steps |-> h, final |-> FinalInfo(s)]))
-GSrv == /\ S.ns < MaxSrv
+GSrv == /\ S.ns < MaxSrv /\ ~S.stalled
         /\ \E e \in SrvEvents(S) : S' = SrvStep(S, e) /\ hist' = Append(hist, Obs(S')) /\ Line(S', hist')
-GCli == /\ S.nc < MaxCli
+GCli == /\ S.nc < MaxCli /\ ~S.stalled
         /\ \E e \in CliEvents(S) : S' = CliStep(S, e) /\ hist' = Append(hist, Obs(S')) /\ Line(S', hist')
 GenSpec == Init /\ [][GSrv \/ GCli]_<<S, hist>>
 
